@@ -268,6 +268,8 @@ class Model:
         from .normalize import canonicalise_anchor_functions, canonicalise_kernel_params
         pk = {k: v for k, v in trees.items() if k not in ("hll_constants", "hll_bias_experiment")}
         self.renamed_anchors = canonicalise_anchor_functions(pk)
+        from .normalize import positionalise_kernel_calls
+        positionalise_kernel_calls(pk)
         canonicalise_kernel_params(pk)
         for short, text in sources.items():
             self.modules[short] = Module(short, "%s/%s.py" % (PKG, short), text, tree=trees[short])
